@@ -209,7 +209,23 @@ def classify(sb, pr, path, why, special_names):
     return {'kind': 'unclassified', 'xvc_opinion': a[0]}
 
 
-def oracle_after(chk, sb, pr, before, cmd, obliged=None):
+XVC_PUBLIC = re.compile(r'\.xvc/(store/|ec/|config\.toml$)')
+CACHE_OBJECT = re.compile(r'\.xvc/[a-z][0-9]/')
+ALGORITHMS = ['blake3', 'blake2', 'sha2', 'sha3']          # the documented values of cache.algorithm
+
+
+def private_xvc(paths):
+    """entries below .xvc/ that Git must never hold: everything but store/, ec/ and config.toml (what the template of the
+    unchanged `xvc init` leaves visible) - the cache of whatever algorithm, config.local.toml, any lock or temporary file"""
+    return sorted(p for p in paths if p.startswith('.xvc/') and not XVC_PUBLIC.match(p))
+
+
+def private_sig(paths, algo):
+    kind = 'cache-staged' if any(CACHE_OBJECT.match(p) for p in paths) else 'xvc-local-file-staged'
+    return {'kind': kind, 'algorithm': algo[0], 'algorithm_set_by': algo[1]}
+
+
+def oracle_after(chk, sb, pr, before, cmd, obliged=None, algo=('blake3', 'default')):
     """what C16 demands after a command; returns (list of (message, signature), .gitignore contents, tracked files).
     `obliged`: the tracked paths the command has to leave ignored (None = every tracked path): the recorded files among
     the command's targets / the files it materialised, plus every tracked path git ignored just before the command.
@@ -248,8 +264,18 @@ def oracle_after(chk, sb, pr, before, cmd, obliged=None):
     for s in staged:
         if s in tr and (obliged is None or s in obliged) and not any(s in m for m, _ in out):
             out.append((f'{cmd}: `git add -A` would stage the tracked path {s}', {'kind': 'unclassified'}))
-        if re.match(r'\.xvc/(b3|b2|s2|s3)/', s):
-            out.append((f'{cmd}: `git add -A` would stage the cache object {s}', {'kind': 'cache-staged'}))
+    where = f'cache.algorithm = {algo[0]} ({algo[1]})'
+    priv = private_xvc(staged)
+    if priv:
+        out.append((f'{cmd} [{where}]: `git add -A` would stage {len(priv)} file(s) of .xvc/ other than store/, ec/, config.toml: {priv[:3]}', private_sig(priv, algo)))
+    # what Git already holds: xvc's own auto-commit (`git add .xvc …`) runs right after the command
+    _, ls, _ = sb.git('-c', 'core.quotePath=false', 'ls-files', '--', '.xvc')
+    held = private_xvc(ls.split('\n'))
+    if held:
+        out.append((f'{cmd} [{where}]: the Git index holds {len(held)} file(s) of .xvc/ other than store/, ec/, config.toml (committed by the auto-commit of xvc): {held[:3]}',
+                    private_sig(held, algo)))
+    elif not priv:
+        chk.count('oracle:nothing-private-of-.xvc-in-index-or-proposed')
     return out, after, tr
 
 
@@ -534,7 +560,25 @@ def scenario(chk, pr, xvc, idx, rng, forced=None):
         for d, c in gis.items():
             sb.write((d + '/' if d else '') + GI, (root_gi if d == '' else '') + c)
         sb.git('add', '-f', '--', '*' + GI, GI); sb.git('commit', '-q', '-m', 'user gitignores')     # -f: also inside ignored directories
-        log.append({'files': list(files), 'gitignores': dict(gis)})
+        # the cache directory is a function of cache.algorithm; the setting comes from the project configuration, -c or the environment
+        if forced:
+            algo = tuple(spec.get('algorithm') or ('blake3', 'default'))
+        elif rng.random() < 0.4:
+            algo = ('blake3', 'default')
+        else:
+            algo = (rng.choice(ALGORITHMS), rng.choice(['config', '-c', 'env']))
+        if algo[1] == 'config':
+            conf = sb.read('.xvc/config.toml').decode()
+            conf2 = re.sub(r'^algorithm = "blake3"', f'algorithm = "{algo[0]}"', conf, count=1, flags=re.M)
+            if conf2 == conf and algo[0] != 'blake3':
+                chk.count('algorithm:config-anchor-missing(-c used)'); algo = (algo[0], '-c')
+            else:
+                sb.write('.xvc/config.toml', conf2)
+        if algo[1] == 'env':
+            sb.env['XVC_cache.algorithm'] = algo[0]
+        xpre = ['-c', f'cache.algorithm={algo[0]}'] if algo[1] == '-c' else []
+        chk.count(f'algorithm:{algo[0]}:{algo[1]}')
+        log.append({'files': list(files), 'gitignores': dict(gis), 'algorithm': list(algo)})
         # rec: content recorded for every recorded file (what we did, not what the model says); cache: (content, extension) objects
         st = {'files': files, 'content': content, 'rec': {}, 'cache': set(), 'queue': [], 'user_run': 0}
         rec, cache = st['rec'], st['cache']
@@ -565,6 +609,7 @@ def scenario(chk, pr, xvc, idx, rng, forced=None):
                 fault, c = (c[0], c[1]), tuple(c[2])
 
             def X(*args):
+                args = tuple(xpre) + args
                 if fault is None:
                     return sb.x(*args)
                 if fault[0] == 'fault-fsize':
@@ -692,7 +737,7 @@ def scenario(chk, pr, xvc, idx, rng, forced=None):
             log.append({'cmd': desc, 'rc': rc, 'step': list(c0)})
             if rc not in (0,):
                 log[-1]['stderr'] = (out + err)[-300:]
-            of, after, store = oracle_after(chk, sb, pr, before, desc, obliged=ign_before | named)
+            of, after, store = oracle_after(chk, sb, pr, before, desc, obliged=ign_before | named, algo=algo)
             if fault:
                 of = [(m, dict(sg, fault=fault[0])) for m, sg in of]
             fails += of
@@ -710,8 +755,23 @@ def scenario(chk, pr, xvc, idx, rng, forced=None):
                     tie.append((f'{desc}: bytes of {dd or "."}/{GI}', got.get(dd), want_c.get(dd)))
                 if exp_rec is not None and sorted(exp_rec) != sorted(store):
                     tie.append((f'{desc}: recorded file paths (XvcPath store)', sorted(store), sorted(exp_rec)))
+            # the cache lives where the model says it does for this algorithm (table regenerated from hashalgorithm.rs)
+            if rc == 0 and not fault:
+                extra = sorted(set(os.listdir(sb.path('.xvc'))) - {'store', 'ec', 'config.toml', 'config.local.toml'})
+                for e in extra: chk.count('xvc-dir-entry:' + e)
+                if extra and extra != [CACHE_PREFIX.get(algo[0])]:
+                    tie.append((f'{desc}: entries of .xvc/ besides store, ec, config.toml, config.local.toml with cache.algorithm = {algo[0]} ({algo[1]})', extra, [CACHE_PREFIX.get(algo[0])]))
             if fails and not forced:
                 break
+        # every commit there is (xvc makes one after each command): none may contain a private file of .xvc/
+        _, lg, _ = sb.git('-c', 'core.quotePath=false', 'log', '--all', '--name-only', '--format=@%h %s', '--', '.xvc')
+        subject, bad = '', {}
+        for l in lg.split('\n'):
+            if l.startswith('@'): subject = l[1:]
+            elif l and private_xvc([l]): bad.setdefault(subject, []).append(l)
+        if bad and not any(sg.get('kind') in ('cache-staged', 'xvc-local-file-staged') for _, sg in fails):
+            sub, fl = sorted(bad.items())[0]
+            fails.append((f'commit "{sub[:90]}" [cache.algorithm = {algo[0]} ({algo[1]})] contains {len(fl)} file(s) of .xvc/ other than store/, ec/, config.toml: {fl[:3]}', private_sig(fl, algo)))
     finally:
         sb.cleanup()
     return fails, tie, log
@@ -758,7 +818,8 @@ def gen_fault_spec(rng, chk, strace_ok, k):
     if inner[0] == 'track' and mode == 'fault-fsize' and rng.random() < 0.5:
         cmds.append(inner)                                      # the same command again, no fault: now its targets are judged
     chk.count(f'fault-scenario:{mode}:{"root" if not D else "subdir"}:{inner[0]}:{"cross" if cross else "over"}:{n}KiB')
-    return {'files': files, 'gitignores': gis, 'commands': cmds}
+    algo = ['blake3', 'default'] if rng.random() < 0.5 else [rng.choice(ALGORITHMS), rng.choice(['config', '-c', 'env'])]
+    return {'files': files, 'gitignores': gis, 'algorithm': algo, 'commands': cmds}
 
 
 WRITE_OPEN = re.compile(r'\b(openat|open|creat)\(.*?"([^"]*/\.gitignore)"(?:, ([A-Z_|0-9a-z]+))?')
@@ -801,6 +862,12 @@ def observe_open_flags(chk, xvc):
     return obs, bad
 
 
+try:
+    CACHE_PREFIX = {z: t for _, t, z in c16_extract.extract_hash_algorithms()}        # configuration value -> cache directory
+except (RuntimeError, OSError):
+    CACHE_PREFIX = {}
+
+
 K_REPLAYS = [
     # K12: an anchored line written by xvc itself is read by xvc's matcher as matching at any depth
     {'id': 'K12', 'files': ['data.bin', 'sub/data.bin'], 'gitignores': {}, 'commands': [('track', ['data.bin']), ('track', ['sub/data.bin'])]},
@@ -810,6 +877,12 @@ K_REPLAYS = [
     {'id': 'K6b', 'files': ['a[1].bin', 'sp .bin '], 'gitignores': {}, 'commands': [('track', ['a[1].bin']), ('track', ['sp .bin '])]},
 ]
 CORPUS = [
+    # seeded defect C16-3 (the init block names the blake3 cache directory only): the cache directory follows cache.algorithm
+    {'files': ['x.bin'], 'gitignores': {}, 'algorithm': ['sha2', 'config'], 'commands': [('track', ['x.bin'], [])]},
+    {'files': ['a/x.bin', 'y.bin'], 'gitignores': {}, 'algorithm': ['sha3', '-c'],
+     'commands': [('track', ['a/x.bin', 'y.bin'], []), ('copy', 'a/x.bin', 'a/c.bin'), ('rm-recheck', 'y.bin', False)]},
+    {'files': ['m.dat'], 'gitignores': {'': '*.log\n'}, 'algorithm': ['blake2', 'env'],
+     'commands': [('track', ['m.dat'], []), ('u-modify', 'm.dat', 'v2'), ('carry-in', ['m.dat'], False)]},
     # no final newline in the user's file (fixed by C16-newline.patch): the user's last pattern must survive
     {'files': ['x.bin', 'u.log'], 'gitignores': {'': '*.log'}, 'commands': [('track', ['x.bin'])]},
     {'files': ['a/x.bin', 'a/y.bin', 'b/m.dat'], 'gitignores': {'a': '# mine\ny.bin'}, 'commands': [('track', ['a/']), ('track', ['b/m.dat']), ('rm-recheck', 'a/x.bin', True)]},
@@ -860,10 +933,19 @@ def run(chk: Check):
     xvc = chk.build_xvc()
     if not os.path.exists(model):
         chk.notes.append('model driver did not build; only the implementation-side oracle can run'); model = None
+    # private copies: other checks rebuild lean/XvcIgnore (shared with C09) and the xvc binary while this one runs
+    priv = os.path.join(chk.scratch, 'bin'); os.makedirs(priv, exist_ok=True)
+    if model:
+        model = shutil.copy(model, os.path.join(priv, 'ignoremodel'))
+    try:
+        xvc = shutil.copy(xvc, os.path.join(priv, 'xvc'))
+    except OSError:
+        pass
     pr = Procs(chk, impl, model)
     chk.extra.setdefault('phase_s', {})['lean+cargo builds'] = round(time.time() - t_phase, 1)
     chk.trusted_base += [
         'translator lib/ignore_extract.py (GITIGNORE_INITIAL_CONTENT, COMMON_IGNORE_PATTERNS), cross-checked against the compiled constants (stream `const`)',
+        'translator lib/c16_extract.py (variants of HashAlgorithm with cache directory and configuration value: Gen/HashAlgorithms.lean, compared with the directories the binary creates under .xvc/)',
         'translator lib/c16_extract.py (how file/src/common/gitignore.rs and xvc init open the ignore files: Gen/GitignoreWrites.lean), cross-checked against the open(2) flags strace observes in one traced session per run and against the fault stream',
         'harness harness/src/bin/walker_harness.rs (`gcheckignore` = build_ignore_patterns(.gitignore)+check, as build_gitignore does), lib/c16.py (generators, canonicalisation of dates and of the HashMap order inside one appended block, oracle), lib/xvcbin.py',
         'modelled, not verified: git itself (dir.c/wildmatch are modelled by gitIgnored over globMatch and compared with the real `git check-ignore --no-index` on every run; `git add -A -n` is the oracle), chrono date text, the POSIX semantics of O_APPEND (WritePrim.lean `WriteKind.after`), HashMap iteration order (irrelevant: one file per group)',
@@ -921,11 +1003,11 @@ def run(chk: Check):
             nshr = [0]
             def still(cand):
                 nshr[0] += 1
-                f2, _, _ = scenario(chk, pr, xvc, f'shr{i}_{nshr[0]}', rng, forced={'files': log[0]['files'], 'gitignores': log[0]['gitignores'], 'commands': cand})
+                f2, _, _ = scenario(chk, pr, xvc, f'shr{i}_{nshr[0]}', rng, forced={'files': log[0]['files'], 'gitignores': log[0]['gitignores'], 'algorithm': log[0].get('algorithm'), 'commands': cand})
                 return any(sg == kind for _, sg in f2)
             small = shrink(steps, still, max_steps=14)
             if len(small) < len(steps):
-                f2, t2, l2 = scenario(chk, pr, xvc, f'shr{i}_final', rng, forced={'files': log[0]['files'], 'gitignores': log[0]['gitignores'], 'commands': small})
+                f2, t2, l2 = scenario(chk, pr, xvc, f'shr{i}_final', rng, forced={'files': log[0]['files'], 'gitignores': log[0]['gitignores'], 'algorithm': log[0].get('algorithm'), 'commands': small})
                 if any(sg == kind for _, sg in f2):
                     fails, log = f2, l2
                     chk.count('shrunk-history')
@@ -999,7 +1081,9 @@ def run(chk: Check):
         'files with identical content; delete the line that ignores a tracked path or any user line; change the content of a file); after every xvc command: byte-prefix and line-prefix relation of '
         'every .gitignore, real `git check-ignore` and `git add -A -n` for every tracked path that the command named as target / materialised or that git ignored before the command (a path the user '
         'un-ignored and no later command named is not demanded), and the predicted bytes of every .gitignore and the predicted set of recorded paths (model `trackCmd`/`handlerUpdate`/`moveUpdate` on the '
-        'real prior state) vs the real ones; failing generated histories are shrunk; '
+        'real prior state) vs the real ones; failing generated histories are shrunk; every history runs with a cache.algorithm (blake3 default 40 %, else blake3/blake2/sha2/sha3 set in .xvc/config.toml, by -c or by '
+        'XVC_cache.algorithm) and after every command nothing below .xvc/ other than store/, ec/, config.toml may be in the Git index (xvc auto-commits), be proposed by `git add -A -n` or, at the end, be in any commit '
+        '(`git log --all --name-only`); the cache directory that appears is compared with the table regenerated from hashalgorithm.rs; '
         f'{len(fspecs)} fault histories: a LATER command (track file/glob/dir, copy, move, recheck, carry-in) runs under `trap "" XFSZ; ulimit -f 4|8|16` '
         'with a root or sub-directory .gitignore that the user\'s own lines made larger than the limit (or so large that the appended block crosses it), or is killed by strace at its first write(2) to that '
         '.gitignore; oracle: every byte that was in every .gitignore is still there as a prefix, every tracked path git ignored before is still ignored and not staged (the targets of the failed command are '
@@ -1015,7 +1099,7 @@ def replay(chk: Check, data):
     pr = Procs(chk, impl, None)
     for n, f in enumerate(data.get('failures', [])):
         hist = f['case']['history']
-        spec = {'files': list(hist[0]['files']), 'gitignores': dict(hist[0]['gitignores']), 'commands': []}
+        spec = {'files': list(hist[0]['files']), 'gitignores': dict(hist[0]['gitignores']), 'algorithm': hist[0].get('algorithm'), 'commands': []}
         for h in hist[1:]:
             if h.get('step'):
                 spec['commands'].append(tuple(h['step'])); continue
